@@ -25,7 +25,9 @@ var poolPathy = []string{"a.go", "Makefile", ".hidden", "a..b", "...", "x y", "Ã
 	"main.go", "src", "a", "b", "lib.a", ".go", "x.gz", "d.md", "e", "f", "..a", "a.", strings.Repeat("n", 255), "æ—¥æœ¬", "file.o", "Makefile.in", "md", "100%", "%s", "%d.go", "a%vb", "%!s(MISSING)", "$HOME", "`id`", "a;b", "a&b", "a|b", "a*b", "a?b", "[a]", "{a,b}", "a\\b", "~", "-rf", "--help"}
 
 var poolHostilePath = []string{"..", ".", "a/b", "/abs", "../x", "a/../../x", "../../escaped", "/", "a/", "/etc/passwd", "..\x00", "a\x00b",
-	strings.Repeat("L", 256), "\xff\xfe", "./x", "x/.", "../..", "a//b", "~", "..."}
+	strings.Repeat("L", 256), "\xff\xfe", "./x", "x/.", "../..", "a//b", "~", "...",
+	// valid single path elements that only LOOK like dot names: they must be created literally inside the target
+	".. ", "..\t", ". ", " ..", "..  ", ".\t", "..\u00a0", "..."}
 
 var poolEncoding = []string{`"`, `a"b`, `'`, `a: b`, `#c`, `a #c`, `\`, `a\nb`, `~`, `null`, `true`, `false`, `1e3`, `0x1f`, `123`, `1.5`, `- x`, `|`, `>`,
 	`&a`, `*a`, `!t`, `%d`, `@x`, `[a]`, `{a}`, `? k`, `---`, `...`, `<html>&`, `'''`, `"""`, "a\tb", "\x00", "\x01", "\x1f", "\x7f", "a\x08b",
